@@ -25,7 +25,7 @@ TRUSTED = [
     'translator harness/translate.py and this correspondence harness',
 ]
 ASSUMPTIONS = ['inputs are str objects; property quantifies over pairs of valid version strings']
-RULE = ('C01s: every ordered pair of component strings of length <= L over {0 1 9 a Z ~ + - .} through compare_strings; '
+RULE = ('cascade: order-equal-but-different upstreams/epochs x all revision pairs of a small set; C01s: every ordered pair of component strings of length <= L over {0 1 9 a Z ~ + - .} through compare_strings; '
         'C01: 57x57 single-symbol sweep in a valid context, near-pairs of grammar versions (one edit, numerically equal '
         'rewrites, epoch/revision changes); C01c: same pairs against the C transliteration. '
         'non-trivial = both sides accepted and textually different')
@@ -93,6 +93,8 @@ def near_pairs(rng, n):
         r = rng.random()
         if r < 0.75:
             b = genlib.mutate_version(rng, a)
+            while rng.random() < 0.4:      # several edits: a tie in one part combined with a difference in another
+                b = genlib.mutate_version(rng, b)
         else:
             b = genlib.rand_version(rng)
         if rng.random() < 0.5:
@@ -100,8 +102,45 @@ def near_pairs(rng, n):
         yield [a, b]
 
 
+def zero_variants(u):
+    """spellings of u that differ only by leading zeros of digit runs (order-equal by construction)"""
+    out = [u]
+    idx = [i for i, c in enumerate(u) if c.isdigit() and (i == 0 or not u[i - 1].isdigit())]
+    for i in idx:
+        out.append(u[:i] + '0' + u[i:])
+    if len(idx) > 1:
+        v = u
+        for i in reversed(idx):
+            v = v[:i] + '00' + v[i:]
+        out.append(v)
+    return out
+
+
+def cascade(tier):
+    """the epoch / upstream / revision cascade around ties: upstreams (resp. epochs) that are order-equal but
+    textually different, combined with every pair of revisions from a small set (and the other way round)"""
+    tails = ['', '.1', '.10', 'a', '~', '~1', '.0a', '+', '-1', '-1.2', '.01~'] if tier != 'quick' else ['', '.1', 'a', '~1', '.0a', '-1']
+    heads = ['1', '0', '12'] if tier != 'quick' else ['1', '0']
+    revs = [None, '0', '00', '1', '01', 'a', '~', '1~', '2', '1.0', '1.00']
+    epochs = [('', ''), ('', '0:'), ('0:', '00:'), ('1:', '01:'), ('', '1:'), ('1:', '2:')]
+    for h in heads:
+        for t in tails:
+            u = h + t
+            for u2 in zero_variants(u):
+                for r1 in revs:
+                    for r2 in revs:
+                        if '-' in u and (r1 is None or r2 is None):
+                            continue
+                        for e1, e2 in epochs:
+                            a = e1 + u + ('' if r1 is None else '-' + r1)
+                            b = e2 + u2 + ('' if r2 is None else '-' + r2)
+                            yield [a, b]
+                            yield [b, a]
+
+
 def streams(tier, rng):
     L = 2 if tier == 'quick' else 3
+    yield {'name': 'cascade-around-ties', 'op': 'C01', 'cases': cascade(tier), 'exhaustive': True}
     yield {'name': 'components-exhaustive-len<=%d' % L, 'op': 'C01s', 'cases': comp_pairs(L), 'exhaustive': True}
     yield {'name': 'symbol-sweep-57x57', 'op': 'C01', 'cases': sweep(), 'exhaustive': True}
     n = 20000 if tier == 'quick' else 300000
